@@ -87,6 +87,9 @@ def check(tier, seed, replay=None):
             lst = [n] + others
             items.append(("bag", "(sort .)", ("arr", [("num", str(x)) for x in lst]), None))
             items.append(("bag", "(sort_by . .)", ("arr", [("num", str(x)) for x in lst]), None))
+            # distinct neighbours that share one double: sort_unique may not take them for duplicates
+            near = [n] + [x for x in (n + 1, n - 1, n + 2, n - 2) if -(2**63) <= x < 2**64][:2]
+            items.append(("bag", "(sort_unique .)", ("arr", [("num", str(x)) for x in near]), None))
         # ... and through pipelines (sort on a small key, group, unique, select, skip/take) with the integer as payload
         for i in range(60 if quick else 3000):
             cfg = PL.rand_cfg(rnd, rnd.choice(["all", "sort", "group", "unique"]))
